@@ -219,6 +219,8 @@ TReset ==
     /\ l <= Len(Log)
     /\ LET r == Log[l] IN
        /\ r.e = "reset" /\ r.out = "ok" /\ Has(r, "obs")
+       \* (library files converted to WAL journal mode by another client: the first load + close left them byte-identical, C16)
+       /\ (Has(r, "walsame") => r.walsame)
        /\ fam' = r.family
        /\ live' = {} /\ dead' = {} /\ par' = <<>> /\ nm' = <<>>
        /\ kids' = [x \in {Root} |-> <<>>]
